@@ -207,24 +207,6 @@ static void run_pools(size_t a, size_t b, long fail)
 	printf("%s%s", thrown ? "exc" : "val", canon(false, false, true, true).c_str());
 }
 
-// TreeSet copy constructor on a two-level tree (TreeNode<4,2>: 3c-1 ascending keys give a root with c-1 items and c leaves of
-// 2 items), the j-th element copy failing
-static void run_ts2(size_t c, long j)
-{
-	typedef kit::ElemNtm E;
-	typedef TreeSet<E, TreeTraitsStd<E, PlainLess, false, TreeNode<4, 2>>, kit::MM> TS;
-	bool thrown = false;
-	{
-		TS src(TS::TreeTraits(), kit::MM(1));
-		for (size_t i = 0; i < 3 * c - 1; ++i) src.Insert(E(int64_t(100 + i)));
-		if (src.mRootNode->IsLeaf() || src.mRootNode->GetCount() != c - 1) { printf("bad-shape"); return; }
-		kit::W().elog_reset(); kit::W().elogging = true; kit::W().arm(-1, j, -1);
-		try { TS copy(src, kit::MM(1)); kit::W().disarm(); }
-		catch (const std::exception&) { thrown = true; }
-		window_end();
-	}
-	printf("%s%s", thrown ? "exc" : "val", canon(false, true, false).c_str());
-}
 // SegmentedArray(begin, end, memManager) with 4 items per segment, the c-th element copy failing; then the destructors
 static void run_sa(size_t n, long c)
 {
@@ -270,6 +252,70 @@ template<class E> static void run_grow(const std::string& flags, size_t n, long 
 	for (auto& e : kit::W().elog) if (e.kind == 'C' || e.kind == 'M' || e.kind == 'X' || e.kind == 'F') { kinds += ' '; kinds += e.kind; }
 	printf("kinds%s", kinds.c_str());
 }
+// the FIRST insertion into a HashSet that has no bucket array, the k-th fallible step failing; then the destructor
+template<class E> static void run_hsf(long k)
+{
+	typedef HashSet<E, HashTraitsStd<E, PlainHash, PlainEq, HashBucketOpenDefault>, kit::MM> HS;
+	bool thrown = false;
+	E item(int64_t(7));
+	window_begin(k);
+	try { HS s(typename HS::HashTraits(), kit::MM(1)); s.Insert(item); kit::W().disarm(); }
+	catch (const std::exception&) { thrown = true; }
+	window_end();
+	printf("%s%s", thrown ? "exc" : "val", canon(false, true).c_str());
+}
+
+// TreeSet copy constructor on whatever tree n ascending keys produce with TreeNode<4,2> (depth grows with n).
+// "tsnprobe n" prints the shape in preorder:  items[(child,child,...)] ;  "tsn n shape j": the j-th element copy fails
+template<class Node> static std::string shape_of(Node* node)
+{
+	std::string r = std::to_string(node->GetCount());
+	if (!node->IsLeaf())
+	{
+		r += "(";
+		for (size_t i = 0; i <= node->GetCount(); ++i) { if (i > 0) r += ","; r += shape_of(node->GetChild(i)); }
+		r += ")";
+	}
+	return r;
+}
+static void run_tsn(size_t n, const std::string& shape, long j, bool probe)
+{
+	typedef kit::ElemNtm E;
+	typedef TreeSet<E, TreeTraitsStd<E, PlainLess, false, TreeNode<4, 2>>, kit::MM> TS;
+	bool thrown = false;
+	{
+		TS src(TS::TreeTraits(), kit::MM(1));
+		for (size_t i = 0; i < n; ++i) src.Insert(E(int64_t(100 + i)));
+		std::string real = (n == 0) ? std::string("-") : shape_of(src.mRootNode);
+		if (probe) { printf("%s", real.c_str()); return; }
+		if (real != shape) { printf("bad-shape %s", real.c_str()); return; }
+		kit::W().elog_reset(); kit::W().elogging = true; kit::W().arm(-1, j, -1);
+		try { TS copy(src, kit::MM(1)); kit::W().disarm(); }
+		catch (const std::exception&) { thrown = true; }
+		window_end();
+	}
+	printf("%s%s", thrown ? "exc" : "val", canon(false, true, false).c_str());
+}
+
+// HashSet growth with the growth points left to the real capacity policy: n insertions, the c-th element copy fails (any c)
+template<class E> static void run_growa(size_t n, long c)
+{
+	typedef HashSet<E, HashTraitsStd<E, PlainHash, PlainEq, HashBucketOpenDefault>, kit::MM> HS;
+	std::string kinds;
+	{
+		std::vector<E> srcv; srcv.reserve(n);
+		for (size_t i = 0; i < n; ++i) srcv.emplace_back(int64_t(100 + i));
+		kit::W().elog_reset(); kit::W().elogging = true; kit::W().arm(-1, c, -1);
+		{
+			HS hs(typename HS::HashTraits(), kit::MM(1));
+			for (size_t i = 0; i < n; ++i) { try { hs.Insert(srcv[i]); } catch (const std::exception&) {} }
+			kit::W().disarm();
+		}
+		window_end();
+	}
+	for (auto& e : kit::W().elog) if (e.kind == 'C' || e.kind == 'M' || e.kind == 'X' || e.kind == 'F') { kinds += ' '; kinds += e.kind; }
+	printf("kinds%s", kinds.c_str());
+}
 #endif
 
 #if !defined(C03_TIE_PART) || C03_TIE_PART == 2
@@ -297,7 +343,7 @@ static void run_dt(size_t n, long c)
 	}
 	printf("%s%s", thrown ? "exc" : "val", canon(false, true, false).c_str());
 }
-// HashMultiMap(const HashMultiMap&) with n keys of 2 values each, the c-th element copy failing
+// HashMultiMap(const HashMultiMap&) with n keys, key i having i % 3 + 1 values, the c-th element copy failing
 static void run_hmm(size_t n, long c)
 {
 	typedef kit::ElemNtm E;
@@ -305,7 +351,7 @@ static void run_hmm(size_t n, long c)
 	bool thrown = false;
 	{
 		HMM m(HMM::HashTraits(), kit::MM(1));
-		for (size_t i = 0; i < n; ++i) { m.Add(E(int64_t(i)), E(int64_t(100 + i))); m.Add(E(int64_t(i)), E(int64_t(200 + i))); }
+		for (size_t i = 0; i < n; ++i) for (size_t v = 0; v < i % 3 + 1; ++v) m.Add(E(int64_t(i)), E(int64_t(100 * (v + 1) + i)));   // key i: i % 3 + 1 values
 		kit::W().elog_reset(); kit::W().elogging = true; kit::W().arm(-1, c, -1);
 		try { HMM copy(m); kit::W().disarm(); }
 		catch (const std::exception&) { thrown = true; }
@@ -345,7 +391,10 @@ int main()
 		}
 		else if (cmd == "crew") { size_t k, m; long f; is >> k >> m >> f; run_crew(k, m, f); }
 		else if (cmd == "pools") { size_t a2, b2; long f; is >> a2 >> b2 >> f; run_pools(a2, b2, f); }
-		else if (cmd == "ts2") { size_t c; long j; is >> c >> j; run_ts2(c, j); }
+		else if (cmd == "hsf") { long k; is >> cat >> k; if (cat == "ntm") run_hsf<kit::ElemNtm>(k); else run_hsf<kit::ElemCpo>(k); }
+		else if (cmd == "tsnprobe") { size_t n; is >> n; run_tsn(n, "", -1, true); }
+		else if (cmd == "tsn") { size_t n; std::string shape; long j; is >> n >> shape >> j; run_tsn(n, shape, j, false); }
+		else if (cmd == "growa") { size_t n; long c; is >> cat >> n >> c; if (cat == "ntm") run_growa<kit::ElemNtm>(n, c); else run_growa<kit::ElemCpo>(n, c); }
 		else if (cmd == "sa") { size_t n; long c; is >> n >> c; run_sa(n, c); }
 		else if (cmd == "growprobe") { size_t n; is >> cat >> n; if (cat == "ntm") run_grow<kit::ElemNtm>("", n, -1, true); else run_grow<kit::ElemCpo>("", n, -1, true); }
 		else if (cmd == "grow")
